@@ -33,6 +33,10 @@ var c05Files = ref.Files{
 	"both":     "fromincludedir\n",
 	"onlyexcl":  "", // placeholder: lives in the exclude directory only
 	"flagged":  "##!+ i\nfoo\n",
+	"dleft":    "l1\n##!> include plain\n",
+	"dright":   "r1\n##!> include plain\n",
+	"diamond":  "##!> include dleft\n##!=>\n##!> include dright\n",
+	"twice":    "##!> include plain\n##!=>\n##!> include plain\n",
 }
 
 func c05Tree() core.Tree {
@@ -92,8 +96,10 @@ func (c c05Case) build(block []string) (a, b string) {
 			return append(append([]string{"##!> assemble"}, x...), "##!=>", "after", "##!<", "sibling")
 		case 5: // inside assemble, after the marker
 			return append(append([]string{"##!> assemble", "before", "##!=>"}, x...), "##!<", "sibling")
-		default: // inside cmdline
+		case 6: // inside cmdline
 			return append(append([]string{"##!> cmdline unix"}, x...), "ls", "##!<")
+		default: // the same file twice, in two concatenation segments
+			return append(append(append([]string{}, x...), "##!=>"), x...)
 		}
 	}
 	h := c05Headers[c.Header]
@@ -205,7 +211,7 @@ func C05(r *core.Run) {
 	sort.Strings(names)
 	var cases []c05Case
 	for _, n := range names {
-		for pos := 0; pos < 7; pos++ {
+		for pos := 0; pos < 8; pos++ {
 			for _, ext := range []bool{false, true} {
 				for h := range c05Headers {
 					cases = append(cases, c05Case{n, pos, ext, h})
@@ -342,7 +348,7 @@ func C05(r *core.Run) {
 	r.Cov["distinct_nontrivial"] = tot.Cases
 	r.Cov["traces_validated_against_impl"] = validated
 	r.Cov["exhaustive"] = tot.Inconclusive == 0 && len(deaths) == 0
-	r.Cov["bound"] = map[string]any{"files": len(names), "positions": 7, "spellings": 2, "includer_headers": len(c05Headers), "schedule_deviations": bound}
+	r.Cov["bound"] = map[string]any{"files": len(names), "positions": 8, "spellings": 2, "includer_headers": len(c05Headers), "schedule_deviations": bound}
 	r.Cov["rule"] = "full cross product files x positions x name spelling x includer header; for each case the including program A and the hand-inlined program B (reference model ref.Inline) are both generated by the real code under every map-iteration schedule with <= bound deviations and their outcome sets must be pairwise language-equal (product-automaton search) or fail together"
 	r.Cov["samples"] = []any{cases[0], cases[len(cases)/2], cases[len(cases)-1]}
 	r.Assume = append(r.Assume, "differential oracle: program B contains no include, so the comparison isolates the include mechanism; B's own compilation is C01's business")
